@@ -312,6 +312,62 @@ def malformed_fonts(r, nfonts, prefix="M"):
     return out, stats
 
 
+def coverage_as_written(c):
+    """(fmt, items) of a recipe coverage as fontbuild serialises it, in the syntax of the `digest` requests; None = not derivable"""
+    if isinstance(c, dict):
+        if not c.get("raw"):
+            return None
+        if "ranges" in c:
+            return 2, (",".join(f"{int(x[0])}-{int(x[1])}" for x in c["ranges"]) or "-")
+        return 1, (",".join(str(int(g)) for g in c.get("glyphs", [])) or "-")
+    if isinstance(c, (list, tuple)):
+        return 1, (",".join(str(g) for g in sorted({int(g) for g in c})) or "-")
+    return None
+
+
+def primary_coverage(table, ltype, st):
+    """the coverage table `subtable.coverage()` returns (what the lookup digest is built from), as written"""
+    if isinstance(st, dict) and "extension" in st:
+        return primary_coverage(table, st["ext_type"], st["extension"])
+    ctx_types = (5, 6) if table == "gsub" else (7, 8)
+    if table == "gpos" and ltype in (4, 5):
+        c = st.get("mark_coverage")
+    elif table == "gpos" and ltype == 6:
+        c = st.get("mark1_coverage")
+    elif ltype in ctx_types and st.get("format") == 3:
+        cs = st.get("coverages", st.get("input")) or [None]
+        c = cs[0]
+    else:
+        c = st.get("coverage")
+    return coverage_as_written(c)
+
+
+def lookup_digest_groups(fonts):
+    """correspondence requests: the digest the crate built for every lookup of the malformed fonts vs Digest.lookupDigest over
+    the subtables' coverage tables as written in the recipe"""
+    groups = []
+    for fid, rec, hexf in fonts:
+        lines = [f"font {fid} {hexf}"]
+        for table in ("gsub", "gpos"):
+            for li, lk in enumerate((rec.get(table) or {}).get("lookups", [])):
+                covs = [primary_coverage(table, lk["type"], st) for st in lk["subtables"]]
+                if any(c is None for c in covs):
+                    continue
+                lines.append(f"digest lookupdigest {fid} {table} {li} COVS " + " ".join(f"{f} {it}" for f, it in covs))
+        groups.append(lines)
+    return groups
+
+
+def classify_lookup(ln, out):
+    t = ln.split()
+    ks = [t[3]]
+    covs = t[6:]
+    kinds = {table_kind(covs[i], covs[i + 1]) for i in range(0, len(covs), 2)}
+    ks += ["lookup:" + k for k in sorted(kinds)]
+    ks.append(f"subtables:{len(covs) // 2}")
+    return ks
+
+
 def lookup_digest_search(ctx, shim, fonts, stats):
     """Oracle on the crate alone, font level: for every GSUB / GPOS lookup as the crate parsed it and every glyph that the
     coverage of one of its subtables reports (Coverage::get), the lookup's digest must answer may_have_glyph."""
@@ -589,6 +645,8 @@ def run(ctx):
     soundness_search(ctx, shim, ctx.rng("sound"), ctx.budget(3000, 60000))
     coverage_sound_search(ctx, shim, ctx.rng("cov-sound"), ctx.budget(3000, 60000))
     mfonts, mstats = malformed_fonts(ctx.rng("malformed"), ctx.budget(300, 5000))
+    ctx.correspond("lookup-digest", groups=lookup_digest_groups(mfonts), classify=classify_lookup,
+                   only=lambda ln: ln.startswith("digest "))
     lookup_digest_search(ctx, shim, mfonts, mstats)
     prefilter_malformed(ctx, shim, ctx.rng("prefilter-malformed"), mfonts, 6)
     if not ctx.quick:
